@@ -197,10 +197,55 @@ def check_c05(res, tier, replay):
                 break
             res.violation({'case': case_json(small), 'problem': p, 'go_actions': g['actions'][:60], 'n': n, 'warm_up': w,
                            'oracle': 'exactly n actions in {Sell,Hold,Buy}, Hold through the warm-up; only Holds (>= n) for shorter inputs'})
+    reused_n = 0
+    if not replay:
+        # the same contract on an instance that has computed other series before (a backtest runs one instance over many assets)
+        rcases = []
+        for name in SCAT:
+            for _ in range(2 if tier == 'quick' else 10):
+                ns, fs = SCAT[name]['cfg'](rng, 6 if tier == 'quick' else 12)
+                ns, fs = list(ns), list(fs)
+                w = strat_idle(name, ns)
+                envs = []
+                for t in range(3):
+                    o, _ = gen_ohlcv(rng, rng.choice([w + 1, 2 * w + 3, rng.randrange(w + 1, 3 * w + 30)]), rng.choice(['walk', 'wide', 'zigzag', 'down', 'up', 'dips']))
+                    envs.append(o)
+                rcases.append((name, ns, fs, envs))
+        rl = ['q%d REUSE STRAT %s %s %s seq %s' % (i, c[0], il(c[1]), fl(c[2]), '/'.join(streams([o[k] for k in 'ohlcv']) for o in c[3]))
+              for i, c in enumerate(rcases)]
+        fl_lines = ['q%d_%d %s' % (i, t, strat_line(c[0], c[1], c[2], o)) for i, c in enumerate(rcases) for t, o in enumerate(c[3])]
+        rg = vlib.run_go(rl + fl_lines)
+        for i, c in enumerate(rcases):
+            g = rg.get('q%d' % i, 'missing')
+            if not g.startswith('ok seq='):
+                bad += 1
+                res.violation({'lines': [rl[i].split(' ', 1)[1]], 'problem': 'reused instance did not run: ' + g[:200]})
+                continue
+            runs = [[int(a) for a in r.split(',')] if r not in ('-', '_', '') else [] for r in g[len('ok seq='):].split(' conc=')[0].split('#')]
+            for t, acts in enumerate(runs):
+                reused_n += 1
+                n = len(c[3][t]['c'])
+                w = strat_idle(c[0], c[1])
+                p = c05_problem(c[0], c[1], n, acts)
+                if p and c[0] in findings and len(acts) == n + 1 and all(a == 0 for a in acts[:min(w, n + 1)]):
+                    known[c[0]] += 1
+                    continue
+                fresh = parse_strat(rg.get('q%d_%d' % (i, t), 'missing'))
+                if not p and fresh['status'] == 'ok' and fresh['actions'] != acts:
+                    k = next((j for j in range(min(len(acts), len(fresh['actions']))) if acts[j] != fresh['actions'][j]), min(len(acts), len(fresh['actions'])))
+                    p = 'action %d is %s, but the recommendation for snapshot %d of this series (fresh instance) is %s' % (
+                        k, acts[k] if k < len(acts) else None, k, fresh['actions'][k] if k < len(fresh['actions']) else None)
+                if p:
+                    bad += 1
+                    res.violation({'lines': [rl[i].split(' ', 1)[1]], 'problem': 'run #%d on one instance: %s' % (t + 1, p), 'go_actions': acts[:60], 'n': n, 'warm_up': w,
+                                   'strategy': {'name': c[0], 'ns': c[1], 'fs': c[2]},
+                                   'oracle': 'exactly n actions in {Sell,Hold,Buy}, Hold through the warm-up — on every run of an instance, not only the first'})
+                    break
     for comp, f in findings.items():
         if known.get(comp):
             res.known_hit.append(known_line(f) + ' [%d cases]' % known[comp])
     res.samples = [{'case': lines[i][:160] + '…', 'go': go.get(lines[i].split(' ')[0], '')[:120]} for i in (0, len(lines) // 2)]
+    res.coverage['runs_on_reused_instances'] = reused_n
     res.coverage.update({
         'evaluations': len(cases), 'distinct_nontrivial': len(cells),
         'rule': 'strategy x configuration x snapshot-count class (n<w, w<=n<=2w+3, longer) over the 32 base strategies (every With-constructor '
